@@ -901,7 +901,9 @@ def decorate_with_checker(func: CallableT) -> CallableT:
             mark = _Mark(flow, id_of_func)
 
             try:
-                _IN_PROGRESS.set(in_progress | {mark})
+                # The marks are read anew: the function might have been suspended in the meantime and resumed
+                # while another check is in progress in this context (whose mark must be kept).
+                _IN_PROGRESS.set(_get_in_progress() | {mark})
 
                 if postconditions:
                     resolved_kwargs["result"] = result
@@ -997,7 +999,9 @@ def decorate_with_checker(func: CallableT) -> CallableT:
             mark = _Mark(flow, id_of_func)
 
             try:
-                _IN_PROGRESS.set(in_progress | {mark})
+                # The marks are read anew: the function might have been suspended in the meantime and resumed
+                # while another check is in progress in this context (whose mark must be kept).
+                _IN_PROGRESS.set(_get_in_progress() | {mark})
 
                 if postconditions:
                     resolved_kwargs["result"] = result
